@@ -642,6 +642,8 @@ class Folder:
                 f = v[1]
                 if f != f:
                     return mk_int(ty, 0)
+                if f in (float("inf"), float("-inf")):
+                    return mk_int(ty, hi if f > 0 else lo)  # `as` saturates
                 return mk_int(ty, max(lo, min(hi, int(f))))
             return TOP
         if k == "bin":
@@ -711,10 +713,18 @@ class Folder:
             if base == "Add": return ("float", x + y)
             if base == "Sub": return ("float", x - y)
             if base == "Mul": return ("float", x * y)
-            if base == "Div": return ("float", x / y) if y != 0 else TOP
+            if base == "Div":
+                if y != 0:
+                    return ("float", x / y)
+                import math
+                return ("float", float("nan") if x == 0 or x != x else math.copysign(float("inf"), x) * math.copysign(1.0, y))
             if base == "Rem":
                 import math
-                return ("float", math.fmod(x, y)) if y != 0 else TOP
+                if y == 0 or x != x or y != y or math.isinf(x):
+                    return ("float", float("nan"))  # IEEE 754: the remainder of an infinite or NaN dividend, or by zero, is NaN
+                if math.isinf(y):
+                    return ("float", x)
+                return ("float", math.fmod(x, y))
             if base in ("Eq", "Ne", "Lt", "Le", "Gt", "Ge"):
                 return mk_bool({"Eq": x == y, "Ne": x != y, "Lt": x < y, "Le": x <= y, "Gt": x > y, "Ge": x >= y}[base])
             return TOP
